@@ -99,7 +99,33 @@ func c09Run(r *ev.Run, shardI, shardN int) scopeReport {
 			}
 		}
 	}
-	rep.Bound = "per grid: 4 borders x 42 distances (1, 2^1..2^36, pixel-1, pixel, pixel+1, 3 pixels, extent; in 1e-10 units) x {outside, inside} x every vertex position of shell (4) and hole (3) x both values of ignore-outside-grid"
+	// corners: the vertex is moved relative to both borders of a corner at once (outside both, or outside one and just inside the other)
+	for _, g := range c09Grids() {
+		px := g.Pixel
+		ds := []int64{-1, 1, px - 1, px, px + 1, 3 * px}
+		for _, bx := range []string{"left", "right"} {
+			for _, by := range []string{"bottom", "top"} {
+				for _, dx := range ds {
+					for _, dy := range ds {
+						if dx < 0 && dy < 0 {
+							continue
+						}
+						for ringNo := 0; ringNo < 2; ringNo++ {
+							for idx := 0; idx < 4-ringNo; idx++ {
+								n++
+								if n%shardN != shardI {
+									continue
+								}
+								rep.States++
+								c09Two(r, &rep, g, bx, dx, by, dy, ringNo, idx)
+							}
+						}
+					}
+				}
+			}
+		}
+	}
+	rep.Bound = "per grid: 4 corners x 35 pairs of distances from the two borders (1 unit inside, 1 unit, pixel-1, pixel, pixel+1, 3 pixels outside) x every vertex position of shell and hole; and per grid: 4 borders x 42 distances (1, 2^1..2^36, pixel-1, pixel, pixel+1, 3 pixels, extent; in 1e-10 units) x {outside, inside} x every vertex position of shell (4) and hole (3) x both values of ignore-outside-grid"
 	rep.Inputs = rep.States
 	rep.States++
 	rep.WallS = time.Since(t0).Seconds()
@@ -107,6 +133,12 @@ func c09Run(r *ev.Run, shardI, shardN int) scopeReport {
 }
 
 func c09One(r *ev.Run, rep *scopeReport, g c09Grid, border string, dist int64, ringNo, idx int) {
+	c09Two(r, rep, g, border, dist, "", 0, ringNo, idx)
+}
+
+// c09Two: the chosen vertex is moved relative to one border (border2 == "") or to the two borders of a corner
+// (border in {left, right}, border2 in {bottom, top}); dist > 0 = outside, dist <= 0 = |dist| units inside.
+func c09Two(r *ev.Run, rep *scopeReport, g c09Grid, border string, dist int64, border2 string, dist2 int64, ringNo, idx int) {
 	px := g.Pixel
 	// base polygon: a 6x6 pixel square with a triangular hole, hugging the border in question
 	cx := (g.MinX + g.MaxX) / 2
@@ -121,6 +153,12 @@ func c09One(r *ev.Run, rep *scopeReport, g c09Grid, border string, dist int64, r
 		x0, y0 = cx, g.MinY+px/2
 	case "top":
 		x0, y0 = cx, g.MaxY-7*px
+	}
+	switch border2 { // corner: hug the second border as well
+	case "bottom":
+		y0 = g.MinY + px/2
+	case "top":
+		y0 = g.MaxY - 7*px
 	}
 	if g.MaxX-g.MinX < 16*px { // tiny grids (id 0 of RD has 4096 px; synthetic has >= 16)
 		ev.HarnessError("grid too small")
@@ -147,6 +185,18 @@ func c09One(r *ev.Run, rep *scopeReport, g c09Grid, border string, dist int64, r
 			v[0] = g.MaxX - 1 + dist
 		case "top":
 			v[1] = g.MaxY - 1 + dist
+		}
+	}
+	switch border2 {
+	case "bottom":
+		v[1] = g.MinY - dist2
+	case "top":
+		v[1] = g.MaxY - 1 + dist2
+	}
+	if border2 != "" {
+		border = border2 + "-" + border
+		if dist2 > dist {
+			dist = dist2 // the larger of the two distances classifies the case
 		}
 	}
 	rings[ringNo][idx] = v
